@@ -33,6 +33,13 @@ def sym_monitors(shape, prs, which):
     if 'C08' in which:
         mons.append(GF.mon_fast_forward(shape))
         mons.append(GF.mon_foreign(shape))
+
+        def mon_resurrect(repo, op):
+            if op['kind'] == 'update' and op['ref'] in shape and op['old'] is None:
+                return [('C08 destination %s (re)created by a job that is not the create-branch job' % op['ref'],
+                         z3.BoolVal(False))]
+            return []
+        mons.append(mon_resurrect)
     if 'C03' in which:
         def mon(repo, op):
             if op['kind'] != 'update' or op['ref'] not in shape or op['old'] is None:
@@ -74,9 +81,11 @@ def real_monitor_labels(s, shape, prs, which, pre_heads):
                 bad.append('C01 inclusion %s in %s' % (a, b))
     for d in shape:
         if d not in heads:
-            if 'C08' in which:
+            if 'C08' in which and d in pre_heads:
                 bad.append('C08 destination %s deleted' % d)
             continue
+        if 'C08' in which and d not in pre_heads:
+            bad.append('C08 destination %s (re)created by a job that is not the create-branch job' % d)
         if heads[d] != pre_heads.get(d):
             if 'C08' in which and d in pre_heads and not w.is_ancestor(pre_heads[d], heads[d]):
                 bad.append('C08 fast-forward of %s' % d)
@@ -169,6 +178,44 @@ def scen_converge(prefix, event):
         fresh = s.play([event])
         if fresh and recs and not same_job(fresh[0], recs[0]):
             bad.append('C10 a fresh server instance behaves differently from the long-lived one')
+        return bad
+    return scen
+
+
+def scen_independent(before_a, before_b, event):
+    """C10: the outcome of an evaluation depends only on the current state of the
+    repository and of the pull request, not on which jobs the same server processed
+    before: two different job histories that leave that state equal (jobs on *another*
+    pull request, which end before the clone) must be followed by the same evaluation."""
+    def scen(s, choose):
+        bad = []
+        snap = s.snapshot()
+        s.play(before_a)
+        a = s.play([event])
+        s.restore(snap, new_server=False)
+        s.play(before_b)
+        b = s.play([event])
+        if a and b and not same_job(a[0], b[0]):
+            bad.append('C10 the evaluation depends on the jobs processed before it')
+        return bad
+    return scen
+
+
+def scen_after_fault(prefix, fault, event):
+    """C13: an accepted event is evaluated even when the environment misbehaved between two
+    jobs in a way the server tolerates (e.g. the scratch directory of the previous job was
+    removed by a tmp cleaner): same evaluation as without the fault."""
+    def scen(s, choose):
+        bad = []
+        s.play(prefix)
+        snap = s.snapshot()
+        a = s.play([event])
+        s.restore(snap, new_server=False)
+        s.play(fault)
+        b = s.play([event])
+        if a and b and not same_job(a[0], b[0]):
+            bad.append('C13 an accepted event is not evaluated after a tolerated fault (%s instead of %s)'
+                       % (b[0]['out'], a[0]['out']))
         return bad
     return scen
 
@@ -301,7 +348,8 @@ def scen_same_as_parent(prefix, event, parent_event):
 
 
 def _robot_texts(rec):
-    return [e[2] for e in rec['effects'] if e[0] == 'comment' and 'InitMessage' not in e[2]
+    # (without the list of options in force: a dependency comment that is satisfied is still there)
+    return [e[2].split(' options=')[0] for e in rec['effects'] if e[0] == 'comment' and 'InitMessage' not in e[2]
             and 'init.md' not in e[2]]
 
 
@@ -332,6 +380,59 @@ def scen_hold(prefix, hold, lift, event, held_outs):
         b = b[-1] if b else None
         if a and b and (a['out'] != b['out'] or a['ops'] != b['ops'] or _robot_texts(a) != _robot_texts(b)):
             bad.append('C12 after the hold is lifted the evaluation differs from the one without the hold')
+        return bad
+    return scen
+
+
+def scen_reset(prefix, change, reset_comment, force_comment, manual):
+    """C15 along a history: `reset` refuses (deleting nothing) iff an integration branch holds
+    manual work; `force_reset` discards it; either command touches only the integration
+    branches of its own pull request; the next evaluation rebuilds them."""
+    def scen(s, choose):
+        bad = []
+        s.play(prefix)
+        p = s.prs[0]
+        ts = GF.targets(s.shape, p.dst)
+        mine = set(GF.w_name(p, t) for t in ts[1:])
+        if not (mine & set(s.ref_names())):
+            return bad                      # no integration branch was created on this path
+        # a commit pushed on top of an integration branch is manual work unless that tip is itself a
+        # commit of the source branch or of the destination (then it reads as an earlier version of
+        # the source branch - the statement exempts those)
+        on_top_of_robot_commit = all(
+            not s.is_merged(w, p.src) and not s.is_merged(w, t)
+            for w, t in ((GF.w_name(p, t), t) for t in ts[1:]) if w in s.ref_names())
+        s.play(change)
+        snap = s.snapshot()
+        s.play([reset_comment])
+        r = s.play([('eval_pr', p.id)])[0]
+        expect_refusal = manual and on_top_of_robot_commit
+        if expect_refusal and r['out'] != 'LossyResetWarning':
+            bad.append('C15 reset did not refuse although manual work is on an integration branch (%s)' % r['out'])
+        if not manual and r['out'] != 'ResetComplete':
+            bad.append('C15 reset refused although no manual work is on the integration branches (%s)' % r['out'])
+        if r['out'] == 'LossyResetWarning' and (r['ops'] or any(e[0] == 'decline' for e in r['effects'])):
+            bad.append('C15 a refused reset touched the repository')
+
+        def only_mine(rec, what):
+            if any(ref not in mine for k, ref in rec['ops']):
+                bad.append('C15 %s touched a branch that is not an integration branch of this pull request' % what)
+        only_mine(r, 'reset')
+        if r['out'] == 'ResetComplete' and (mine & set(s.ref_names())):
+            bad.append('C15 reset completed but integration branches are still there')
+        # force_reset from the same state
+        s.restore(snap, new_server=True)
+        s.play([force_comment])
+        f = s.play([('eval_pr', p.id)])[0]
+        if f['out'] != 'ResetComplete':
+            bad.append('C15 force_reset did not complete (%s)' % f['out'])
+        only_mine(f, 'force_reset')
+        if mine & set(s.ref_names()):
+            bad.append('C15 force_reset completed but integration branches are still there')
+        # the next evaluation rebuilds them
+        n = s.play([('eval_pr', p.id)])[0]
+        if not (mine <= set(s.ref_names())) and n['out'] not in ('Conflict', 'NothingToDo', 'BranchHistoryMismatch'):
+            bad.append('C15 the evaluation after a reset did not rebuild the integration branches (%s)' % n['out'])
         return bad
     return scen
 
@@ -468,7 +569,8 @@ def make_harness(cfg):
         s = H.SymSession(ctx, cfg['shape'], prs, cfg['mode'], no_octopus=cfg.get('no_octopus', True),
                          settings=cfg.get('settings'), monitors=mons, with_w=cfg.get('with_w', False),
                          extra_refs=cfg.get('extra_refs', ()), nfresh=cfg.get('nfresh', 24),
-                         green=cfg.get('green', False), no_conflicts=cfg.get('no_conflicts', False))
+                         green=cfg.get('green', False), no_conflicts=cfg.get('no_conflicts', False),
+                         log_cut=cfg.get('log_cut', True), fresh_prs=cfg.get('fresh_prs', True))
         if 'C06' in cfg.get('which', ()):
             s.repo.monitors.append(GF.mon_handler_builds(cfg['shape'], prs[0], z3.BoolVal(False), s.host))
         choose = SymChooser(ctx)
@@ -493,7 +595,7 @@ def make_harness(cfg):
         outs = tuple(j['out'] for j in s.jobs)
         wit = None
         key = hashlib.sha1(repr(ctx.trace).encode()).digest()[0]
-        if not vio and repo.conflicts_taken == 0 and repo.differs_taken == 0 and \
+        if not vio and repo.differs_taken == 0 and \
                 key % cfg.get('sample_mod', 16) == cfg.get('seed', 0) % cfg.get('sample_mod', 16):
             r, m = ctx.sat_model()
             if r == 'sat':
@@ -508,7 +610,7 @@ def run_real(cfg, world, choices, pushed=()):
     """Run cfg's scenario on a real repository; returns (labels, job records)."""
     prs = [PR(*p) for p in cfg['prs']]
     s = H.RealSession(world, cfg['shape'], prs, cfg['mode'], no_octopus=cfg.get('no_octopus', True),
-                      settings=cfg.get('settings'))
+                      settings=cfg.get('settings'), log_cut=cfg.get('log_cut', True))
     s.pushed_plan = list(pushed)
     orig_tp = s.third_party_commit
 
@@ -517,6 +619,13 @@ def run_real(cfg, world, choices, pushed=()):
             atom = s.pushed_plan.pop(0)
         return orig_tp(ref, atom)
     s.third_party_commit = tp
+    orig_tm = s.third_party_merge
+
+    def tm(ref, base_ref, other_ref, atom=None):
+        if atom is None and s.pushed_plan:
+            atom = s.pushed_plan.pop(0)
+        return orig_tm(ref, base_ref, other_ref, atom)
+    s.third_party_merge = tm
     labels = []
     which = cfg.get('which', ())
     try:
@@ -542,7 +651,12 @@ def hist_render(template, **kw):
     if template == 'pull_request_description.md':
         return 'This pull request has been created automatically. It is linked to its parent ' \
                'pull request #%d.' % kw['pr'].id
-    return common.named_render(template, **kw)
+    text = common.named_render(template, **kw)
+    opts = kw.get('active_options')
+    if opts:
+        # the real templates print the options in force below the message
+        text += ' options=' + ','.join(sorted(str(o) for o in opts))
+    return text
 
 
 def prepare():
@@ -624,7 +738,7 @@ def run_family(rep, prop, cfgs, part, replay_cap=6, witness_cap=10, split_depth=
         vs.sort(key=lambda v: (v['conflicts'] + v['differs'], len(v['choices'])))
         reproduced = None
         for v in vs[:replay_cap]:
-            if v['conflicts'] or v['differs']:
+            if v['differs']:
                 continue
             labels, jobs = run_real(c, v['world'], v['choices'], v['pushed'])
             if label in labels:
@@ -673,11 +787,21 @@ def family(prop, tier):
                         'pushed, commit event on the new source tip', F, [P1, P2b], 'queue',
                         scen_converge([('comment', 2, 'contributor', '@robot wait'), ('eval_pr', 2),
                                        ('src_push', 1)], ('eval_commit', 'feature/a'))))
+        HELD = [('comment', 2, 'contributor', '@robot wait')]
+        out.append(_cfg('indep:noqueue:F', 'independence: another (held) pull request evaluated before, with different '
+                        'admin options in its comments', F, [P1, P2b], 'noqueue',
+                        scen_independent(
+                            HELD + [('comment', 2, 'admin', '@robot bypass_peer_approval bypass_leader_approval'),
+                                    ('eval_pr', 2)],
+                            HELD + [('comment', 2, 'admin', '@robot bypass_jira_check'), ('eval_pr', 2)], EV1)))
+        out.append(_indep_author_options('C10'))
         out.append(_cfg('conv:queue:F:declined', 'converge queue: evaluated then declined',
                         F, [P1], 'queue', scen_converge([EV1, ('decline', 1)], EV1)))
         if tier == 'thorough':
             out.append(_cfg('conv:noqueue:F:src-push', 'converge noqueue: evaluated, source pushed, PR event',
                             F, [P1], 'noqueue', scen_converge([EV1, ('src_push', 1)], EV1)))
+            out.append(_cfg('conv:queue:F:pr:log', 'converge queue 2 targets, PR event, git log modelled (history-mismatch '
+                            'check active)', F, [P1], 'queue', scen_converge([], EV1), log_cut=False))
             out.append(_cfg('conv:queue:A:pr', 'converge queue 3 targets, PR event', A, [P1], 'queue',
                             scen_converge([], EV1)))
             out.append(_cfg('conv:queue:F:2prs', 'converge queue: two PRs queued, queue evaluations',
@@ -695,7 +819,13 @@ def family(prop, tier):
                         scen_recover([], [EV1]), which=W, expect_outcomes=['SuccessMessage', 'CRASHED']))
         out.append(_cfg('rec:skip:F', 'recover skip-queue 2 targets', F, [P1], 'skip',
                         scen_recover([], [EV1, ('eval_queues',)]), which=W, expect_outcomes=['CRASHED']))
+        out.append(_cfg('rec:noqueue:F:resolved', 'recover noqueue: conflict, resolved by hand on the integration branch, '
+                        'then merged', F, [P1], 'noqueue',
+                        scen_recover([EV1, ('resolve', 1, 'development/5.1')], [EV1]), which=W,
+                        expect_outcomes=['Conflict', 'SuccessMessage', 'CRASHED']))
         if tier == 'thorough':
+            out.append(_cfg('rec:skip:F:resolved', 'recover skip-queue: conflict, resolved by hand, then merged', F, [P1], 'skip',
+                            scen_recover([EV1, ('resolve', 1, 'development/5.1')], [EV1, ('eval_queues',)]), which=W))
             out.append(_cfg('rec:queue:A', 'recover queue 3 targets', A, [P1], 'queue',
                             scen_recover([], [EV1, ('eval_queues',)]), which=W))
             out.append(_cfg('rec:queue:F:2prs', 'recover queue, two PRs', F, [P1, P2b], 'queue',
@@ -729,6 +859,25 @@ def family(prop, tier):
                         settings=ipr))
         out.append(_cfg('par:noqueue:F:child', 'event on the integration pull request = parent (no queue)',
                         F, [P1], 'noqueue', scen_same_as_parent([EV1], _child_event, EV1), settings=ipr))
+    elif prop == 'C15-disabled':      # too expensive with the git log model (see DESIGN 11); not registered
+        W51 = 'w/5.1/feature/a'
+        RESET = ('comment', 1, 'contributor', '@robot reset')
+        FORCE = ('comment', 1, 'contributor', '@robot force_reset')
+        # one pull request waiting for approvals (its integration branches exist), builds green, no
+        # conflicts; another pull request's source and integration branch are on the remote and must
+        # not be touched; `git log` is modelled (the lossy test reads it)
+        base = dict(green=True, no_conflicts=True, log_cut=False, settings=dict(required_peer_approvals=1),
+                    extra_refs=['bugfix/other', 'w/5.1/bugfix/other'], fresh_prs=True)
+        pre = [('approvals', 1, []), EV1]
+        out.append(_cfg('reset:noqueue:F:manual', 'reset after a manual commit on the integration branch: refused, '
+                        'nothing deleted; force_reset discards; the next evaluation rebuilds', F, [P1], 'noqueue',
+                        scen_reset(pre, [('ref_push', W51)], RESET, FORCE, manual=True), **base))
+        out.append(_cfg('reset:noqueue:F:clean', 'reset without manual work: integration branches of this PR deleted, '
+                        'rebuilt by the next evaluation; the other PR untouched', F, [P1], 'noqueue',
+                        scen_reset(pre, [], RESET, FORCE, manual=False), **base))
+        out.append(_cfg('reset:noqueue:F:srcpush', 'reset after the source branch was extended: not manual work',
+                        F, [P1], 'noqueue',
+                        scen_reset(pre, [('src_push', 1)], RESET, FORCE, manual=False), **base))
     elif prop == 'C12':
         WAIT = ('comment', 1, 'contributor', '@robot wait')
         for mode in ('noqueue', 'queue'):
@@ -742,6 +891,12 @@ def family(prop, tier):
                         F, [P1, P2], 'noqueue',
                         scen_hold([], [DEP], [('eval_pr', 2)], EV1, ('AfterPullRequest',)),
                         green=True, no_conflicts=True, expect_outcomes=['AfterPullRequest', 'SuccessMessage']))
+    elif prop == 'C04':
+        out.append(_indep_author_options('C04'))
+    elif prop == 'C13':
+        out.append(_cfg('tmp:noqueue:F', 'the scratch directory of the previous job vanished before the next job',
+                        F, [P1, P2b], 'noqueue', scen_after_fault([('eval_pr', 2)], [('tmp_reaper',)], EV1),
+                        green=True, no_conflicts=True, expect_outcomes=['SuccessMessage']))
     elif prop == 'C06':
         for mode in ('noqueue', 'queue'):
             out.append(_cfg('gate:%s:F' % mode, 'build gate along a history (%s): evaluate, source pushed, evaluate twice' % mode,
@@ -772,8 +927,8 @@ def family(prop, tier):
         which = (prop,)
         modes = ('queue', 'skip') if prop == 'C03' else ('queue', 'noqueue', 'skip')
         for mode in modes:
-            if tier != 'thorough' and mode != modes[1]:
-                continue
+            if tier != 'thorough':
+                continue            # (quick tier: the two-PR history and, for C08, the mirror-cache histories)
             out.append(_cfg('hist:%s:F' % mode, 'history %s: evaluate, source pushed, evaluate, queues' % mode,
                             F, [P1], mode,
                             scen_play([EV1, ('src_push', 1), EV1, ('eval_queues',), EV1]), which=which,
@@ -782,12 +937,52 @@ def family(prop, tier):
                         F, [P1, P2b], 'queue',
                         scen_play([EV1, ('eval_pr', 2), ('eval_queues',), ('eval_queues',)]), which=which,
                         signame='history queue 2 PRs'))
+        if prop == 'C08':
+            TP = 'feature/third-party'
+            for mode in ('noqueue', 'queue'):
+                tail = [EV1] if mode == 'noqueue' else [EV1, ('eval_queues',)]
+                out.append(_cfg('cache:%s:F:create' % mode, 'mirror cache (%s): a job, a third party creates a branch, the cache '
+                                'refresh fails once, evaluation%s' % (mode, ' and queue merge' if mode == 'queue' else ''),
+                                F, [P1], mode,
+                                scen_play([('approvals', 1, []), EV1, ('approvals', 1, None),
+                                           ('ref_create', TP, 'development/4.3'), ('fetch_fault',)] + tail + [EV1]),
+                                settings=dict(required_peer_approvals=1),
+                                which=which, green=True, no_conflicts=True, signame='mirror cache %s' % mode,
+                                expect_outcomes=['CommandError']))
+            out.append(_cfg('cache:noqueue:F:delete', 'mirror cache: a job, the newest branch is deleted on the host, the cache '
+                            'refresh fails once, evaluation', A, [P1], 'noqueue',
+                            scen_play([('approvals', 1, []), EV1, ('approvals', 1, None),
+                                       ('ref_delete', 'development/10.0'), ('ref_delete', 'w/10.0/feature/a'),
+                                       ('fetch_fault',), EV1, EV1]),
+                            settings=dict(required_peer_approvals=1),
+                            which=which, green=True, no_conflicts=True, signame='mirror cache delete',
+                            expect_outcomes=['CommandError']))
         if tier == 'thorough':
             out.append(_cfg('hist:queue:A', 'history queue 3 targets', A, [P1], 'queue',
                             scen_play([EV1, ('eval_queues',), EV1]), which=which, signame='history queue'))
             out.append(_cfg('hist:queue:E', 'history queue stabilization PR', E, [PS], 'queue',
                             scen_play([EV1, ('eval_queues',), EV1]), which=which, signame='history queue'))
     return out
+
+
+def _indep_author_options(prop):
+    """Two pull requests of the same author who has an entry in pr_author_options; an admin
+    grants a review bypass by comment on the *other* pull request (evaluated first, held by
+    `wait`); the first pull request lacks approvals and must be refused whatever was granted
+    on the other one."""
+    opts = {'contributor': {k: False for k in (
+        'bypass_author_approval', 'bypass_jira_check', 'bypass_build_status', 'bypass_commit_size',
+        'bypass_incompatible_branch', 'bypass_peer_approval', 'bypass_leader_approval')}}
+    held = [('comment', 2, 'contributor', '@robot wait'), ('approvals', 1, [])]
+    return _cfg('indep:noqueue:F:author-options', 'independence: the author has per-author options; an admin bypass '
+                'written on his other (held) pull request must not carry over', F, [P1, P2b], 'noqueue',
+                scen_independent(
+                    held + [('comment', 2, 'admin', '@robot bypass_peer_approval bypass_author_approval'),
+                            ('eval_pr', 2)],
+                    held + [('comment', 2, 'admin', '@robot bypass_jira_check'), ('eval_pr', 2)], ('eval_pr', 1)),
+                settings=dict(required_peer_approvals=1, need_author_approval=True, pr_author_options=opts),
+                green=True, no_conflicts=True, expect_outcomes=['ApprovalRequired'],
+                signame='independence author options')
 
 
 def _child_event(s):
